@@ -1,9 +1,12 @@
 #!/bin/bash
-# verify every finished seed (patch.diff + demo.py + README.md present) that has no RESULT yet; sequential.
+# verify_queue.sh <i> <n>: verify every finished seed whose position ≡ i (mod n) and that has no log yet.
+I=${1:-0}; N=${2:-1}
 export OMP_NUM_THREADS=2 MKL_NUM_THREADS=2
 while true; do
-  did=0
+  did=0; k=0
   for d in /tmp/seed/C*-out/[ab]*; do
+    [ -d $d ] || continue
+    k=$((k+1)); [ $((k % N)) = $I ] || continue
     [ -f $d/patch.diff ] && [ -f $d/demo.py ] && [ -f $d/README.md ] || continue
     id=$(basename $(dirname $d) | sed 's/-out//'); v=$(basename $d)
     [ -f /tmp/vseed-$id-$v.log ] && continue
